@@ -232,6 +232,7 @@ package jsonschema
 //@ pred okNum(schema *Schema, instance reflect.Value) = isJNum(jv(instance)) ==> (schema.Minimum != nil ==> jn(jv(instance)) >= *schema.Minimum) && (schema.Maximum != nil ==> jn(jv(instance)) <= *schema.Maximum) && (schema.ExclusiveMinimum != nil ==> jn(jv(instance)) > *schema.ExclusiveMinimum) && (schema.ExclusiveMaximum != nil ==> jn(jv(instance)) < *schema.ExclusiveMaximum)
 //@ pred okStr(schema *Schema, instance reflect.Value) = isJStr(jv(instance)) ==> (schema.MinLength != nil ==> runes(js(jv(instance))) >= *schema.MinLength) && (schema.MaxLength != nil ==> runes(js(jv(instance))) <= *schema.MaxLength)
 //@ pred okItems(schema *Schema, instance reflect.Value) = isJArr(jv(instance)) ==> (schema.MinItems != nil ==> jalen(jv(instance)) >= *schema.MinItems) && (schema.MaxItems != nil ==> jalen(jv(instance)) <= *schema.MaxItems)
+//@ pred okReq(schema *Schema, instance reflect.Value) = kind(instance) == 21 && !isnil(schema.Required) ==> (forall j int {schema.Required[j]} :: 0 <= j && j < len(schema.Required) ==> rvhas(instance, schema.Required[j]))
 //@ pred okProps(schema *Schema, instance reflect.Value) = isJObj(jv(instance)) ==> (schema.MinProperties != nil ==> jocard(jv(instance)) >= *schema.MinProperties) && (schema.MaxProperties != nil ==> jocard(jv(instance)) <= *schema.MaxProperties)
 
 //@ contract (*state).validate(st, instance, schema, callerAnns)
@@ -257,6 +258,7 @@ package jsonschema
 //@   let applies = !(schema.Ref != "" && st.rs.draft == 0)
 //@   let inst0 = instance
 //@   atline[C01,C08] "// enum:" cp1 uses samejv,shaped: jv(instance) == jv(inst0) && okType(schema, instance)
+//@   atline[C12] "// const:" enumok uses noneq: isold(schema) && isold(schema.Enum) && (!isnil(schema.Enum) ==> (exists j int :: 0 <= j && j < len(schema.Enum) && eqv(rvof(schema.Enum[j]), instance)))
 //@   atline[C01,C12] "// numbers:" cp2 uses samejv: okConst(schema, instance)
 //@   atline[C01] "// strings:" cp3 uses samejv,shaped: okNum(schema, instance)
 //@   atline[C01] "// $dynamicRef:" cp4 uses samejv,shaped: okStr(schema, instance)
@@ -269,8 +271,10 @@ package jsonschema
 //@   atline[C01,C02,C07] "nContains := 0" items07d uses stacklen,anns,items7: st.rs.draft == 0 && isnil(schema.ItemsArray) && schema.Items != nil ==> new(anns) && anns.allItems && (forall j int {rvindex(instance, j)} :: 0 <= j && j < rvlen(instance) ==> vok(st, len(stk0) + 1, rvindex(instance, j), schema.Items))
 //@   atline[C07] "validation-01#section-6.4" contains uses stacklen,anns: schema.Contains != nil ==> isold(schema) && new(anns) && newOrNil(anns.evaluatedIndexes) && (forall j int {rvindex(instance, j)} :: 0 <= j && j < rvlen(instance) && vok(st, len(stk0) + 1, rvindex(instance, j), schema.Contains) ==> anns.evaluatedIndexes != nil && has(anns.evaluatedIndexes, j) && anns.evaluatedIndexes[j])
 //@   atline[C01] "// objects" cp5 uses samejv,shaped,p_items: okItems(schema, instance)
-//@   atline[C01] "if callerAnns != nil {" cp6 uses samejv,shaped,p_props: okProps(schema, instance)
-//@   atreturn[C01,C12] accepted uses samejv: result == nil && applies ==> jv(instance) == jv(inst0) && okType(schema, instance) && okConst(schema, instance) && okNum(schema, instance) && okStr(schema, instance) && okItems(schema, instance) && okProps(schema, instance)
+//@   atline[C01,C07] "if len(schema.PatternProperties) > 0 {" propsok uses stacklen,propsinv: isold(schema) && isold(schema.Properties) && new(evalProps) && (forall k string {has(schema.Properties, k)} :: has(schema.Properties, k) && rvhas(instance, k) ==> vok(st, len(stk0) + 1, rvget(instance, k), schema.Properties[k]) && has(evalProps, k) && evalProps[k])
+//@   atline[C01] "if st.rs.draft == draft7 {#3" reqok uses shaped: isold(schema) && isold(schema.Required) && okReq(schema, instance)
+//@   atline[C01] "if callerAnns != nil {" cp6 uses samejv,shaped,p_props,p_req: okProps(schema, instance) && isold(schema) && isold(schema.Required) && okReq(schema, instance)
+//@   atreturn[C01,C12] accepted uses samejv: result == nil && applies ==> jv(instance) == jv(inst0) && okType(schema, instance) && okConst(schema, instance) && okNum(schema, instance) && okStr(schema, instance) && okItems(schema, instance) && okProps(schema, instance) && okReq(schema, instance)
 //@   reject[C01] "type:" (schema.Type != "" && !tmatch(schema.Type, typeName(jv(instance)))) || (schema.Type == "" && !isnil(schema.Types) && (forall i int {schema.Types[i]} :: 0 <= i && i < len(schema.Types) ==> !tmatch(schema.Types[i], typeName(jv(instance)))))
 //@   reject[C01] "minimum:" isJNum(jv(instance)) && schema.Minimum != nil && jn(jv(instance)) < *schema.Minimum
 //@   reject[C01] "maximum:" isJNum(jv(instance)) && schema.Maximum != nil && jn(jv(instance)) > *schema.Maximum
@@ -308,6 +312,7 @@ package jsonschema
 //@   loopinv[C01] p_str after "range schema.Enum": okStr(schema, instance)
 //@   loopinv[C01] p_items after "range instance.Len()": okItems(schema, instance)
 //@   loopinv[C01] p_props after "range properties(instance)#4": okProps(schema, instance)
+//@   loopinv[C01] p_req after "range props": isold(schema) && isold(schema.Required) && okReq(schema, instance)
 //@   loop "for instance.Kind() == reflect.Pointer || instance.Kind() == reflect.Interface"
 //@     exit[C08] unwrapped: kind(instance) != 20 && kind(instance) != 22 && jv(instance) == jv(inst0)
 //@   loop "range schema.Enum"
@@ -331,6 +336,11 @@ package jsonschema
 //@   loop "for i < instance.Len()#2"
 //@     invariant[C01,C02,C07] items7 uses stacklen: 0 <= i && (forall j int {rvindex(instance, j)} :: 0 <= j && j < i ==> vok(st, len(stk0) + 1, rvindex(instance, j), schema.Items))
 //@     exit[C01,C02,C07] items7done uses stacklen,items7: i >= rvlen(instance) ==> (forall j int {rvindex(instance, j)} :: 0 <= j && j < rvlen(instance) ==> vok(st, len(stk0) + 1, rvindex(instance, j), schema.Items))
+//@   loop "range props"
+//@     invariant[C01] reqinv: forall j int {props[j]} :: 0 <= j && j <= $idx ==> rvhas(instance, props[j]) || len(missing) > 0
+//@     exit[C01] reqdone uses reqinv: forall j int {props[j]} :: 0 <= j && j < len(props) ==> rvhas(instance, props[j]) || len(missing) > 0
+//@   loop "range schema.Properties"
+//@     invariant[C01,C07] propsinv uses stacklen: isold(schema) && isold(schema.Properties) && new(evalProps) && (forall k string {select(visited, k)} :: select(visited, k) && rvhas(instance, k) ==> vok(st, len(stk0) + 1, rvget(instance, k), schema.Properties[k]) && has(evalProps, k) && evalProps[k])
 //@   loop "range instance.Len()"
 //@     invariant[C07] cont uses stacklen,anns: isold(schema) && new(anns) && newOrNil(anns.evaluatedIndexes) && (forall j int {rvindex(instance, j)} :: 0 <= j && j < $i && vok(st, len(stk0) + 1, rvindex(instance, j), schema.Contains) ==> anns.evaluatedIndexes != nil && has(anns.evaluatedIndexes, j) && anns.evaluatedIndexes[j])
 //@     exit[C07] contdone uses stacklen,anns,cont: isold(schema) && new(anns) && newOrNil(anns.evaluatedIndexes) && (forall j int {rvindex(instance, j)} :: 0 <= j && j < rvlen(instance) && vok(st, len(stk0) + 1, rvindex(instance, j), schema.Contains) ==> anns.evaluatedIndexes != nil && has(anns.evaluatedIndexes, j) && anns.evaluatedIndexes[j])
